@@ -426,10 +426,10 @@ pub fn split_inline_choice_divert(input: &str) -> Result<(&str, Option<Divert>),
 }
 
 pub fn split_text_and_tags(input: &str) -> Result<(String, Vec<DynamicString>), CompilerError> {
-    if let Some((text, tag_text)) = input.split_once('#') {
+    if let Some(index) = find_outside_braces(input, "#") {
         // There may be multiple tags: `tag1 #tag2 #tag3`
-        let tags = split_hash_tags(tag_text)?;
-        return Ok((text.to_owned(), tags));
+        let tags = split_hash_tags(&input[index + 1..])?;
+        return Ok((input[..index].to_owned(), tags));
     }
 
     Ok((input.to_owned(), Vec::new()))
@@ -499,6 +499,21 @@ pub fn split_top_level_pipe(input: &str) -> Vec<&str> {
 
     result.push(&input[start..]);
     result
+}
+
+/// Position of the first `pattern` that is not inside a `{..}` group: the characters
+/// of inline logic (a `[`, `]` or `#` in a string argument, say) are not markup.
+pub fn find_outside_braces(input: &str, pattern: &str) -> Option<usize> {
+    let mut depth = 0usize;
+    for (index, ch) in input.char_indices() {
+        match ch {
+            '{' => depth += 1,
+            '}' => depth = depth.saturating_sub(1),
+            _ if depth == 0 && input[index..].starts_with(pattern) => return Some(index),
+            _ => {}
+        }
+    }
+    None
 }
 
 pub fn find_matching_brace(content: &str, start: usize) -> Option<usize> {
